@@ -38,20 +38,31 @@ theorem C05_spawn_launch_first (s : Sys) (parent : Cid) (name : String) (script 
   simp only [actorOf, h1, h2, if_false, hfree, h3]
   simp [tell, resolve, enqueue, upd, say, Ne.symm hne, blankCtx, List.lookup]
 
-/-- Repaired variant: a successful restart enqueues the new incarnation's OnLaunch to the
-restarted actor itself, resets the behaviour stack to the actor's own OnReceive, bumps the
-incarnation and leaves the mailbox unpaused. -/
+/-- The state in which the new incarnation starts: behaviour stack reset to the actor's own
+OnReceive, incarnation bumped, running, restart flag cleared, mailbox unpaused. -/
+def relaunchState (s : Sys) (c : Cid) : Sys :=
+  say (upd (upd (upd s c (fun x => { x with behaviors := [x.script] })) c
+    (fun x => { x with restarting := none, state := .running, inc := x.inc + 1 })) c
+    (fun x => { x with paused := false })) s!"restarted:{c}"
+
+/-- Repaired variant: a successful restart *runs* the new incarnation's OnLaunch on the restarted
+actor itself, at the end of the restart — nothing is enqueued, so no message that is already
+queued (a second RestartMessage, an OnKill from a concurrent decision, user mail) can reach the
+new incarnation before its OnLaunch; and nobody else receives an OnLaunch. -/
 theorem C05_restart_launch_self (s : Sys) (c : Cid) (hf : s.fixedLaunch = true)
     (hh : (s.ctx c).hooks / 4 % 2 = 0 ∧ (s.ctx c).hooks / 2 % 2 = 0) :
-    let s' := handleRestart s c
-    (s'.ctx c).sysQ = (s.ctx c).sysQ ++ [{ id := 0, sys := true, sender := some c, msg := .onLaunch }] ∧
-    (s'.ctx c).behaviors = [(s.ctx c).script] ∧ (s'.ctx c).inc = (s.ctx c).inc + 1 ∧
-    (s'.ctx c).state = .running ∧ (s'.ctx c).paused = false ∧ (s'.ctx c).restarting = none ∧
-    ∀ d, d ≠ c → (s'.ctx d).sysQ = (s.ctx d).sysQ := by
+    handleRestart s c =
+      execRecover (relaunchState s c) c (s.ctx c).script { id := 0, sys := true, sender := some c, msg := .onLaunch } .onLaunch ∧
+    ((relaunchState s c).ctx c).behaviors = [(s.ctx c).script] ∧ ((relaunchState s c).ctx c).inc = (s.ctx c).inc + 1 ∧
+    ((relaunchState s c).ctx c).state = .running ∧ ((relaunchState s c).ctx c).paused = false ∧
+    ((relaunchState s c).ctx c).restarting = none ∧
+    (∀ d, ((relaunchState s c).ctx d).sysQ = (s.ctx d).sysQ ∧ ((relaunchState s c).ctx d).userQ = (s.ctx d).userQ) := by
   have h1 : ¬ ((s.ctx c).hooks / 4 % 2 = 1 ∨ (s.ctx c).hooks / 2 % 2 = 1) := by omega
-  simp only [handleRestart, h1, if_false, hf, if_true]
-  refine ⟨?_, ?_, ?_, ?_, ?_, ?_, ?_⟩ <;> simp [tell, resolve, enqueue, upd, say]
-  intro d hd; simp [hd]
+  refine ⟨?_, ?_, ?_, ?_, ?_, ?_, ?_⟩
+  · simp only [handleRestart, h1, if_false, hf, if_true, relaunchState]
+  all_goals simp [relaunchState, upd, say]
+  intro d
+  by_cases hd : d = c <;> simp [hd]
 
 /-- The code as found sent that OnLaunch to the parent: witness on a two-actor system. -/
 theorem C05_restart_launch_parent_witness :
